@@ -446,6 +446,28 @@ func (e *Engine) call(fr *Frame, st *State, reach Term, site ssa.Instruction, c 
 		e.note("call to %s has no contract: taken as free of effects for the second opinion", id)
 		e.used["uncontracted:"+id] = true
 		res := e.havocVal(reach, "res."+label, resType)
+		// ... and to follow the convention of the language: with a nil error (last result) the other results that
+		// are pointers, interfaces, maps or functions are usable (non-nil)
+		if rs := splitResults(res); len(rs) >= 2 {
+			last := rs[len(rs)-1]
+			if n, ok := last.T.(*types.Named); ok && n.Obj().Name() == "error" && n.Obj().Pkg() == nil && len(last.L) == 2 {
+				ok := Eq(last.L[0], IntLit(0))
+				for _, r := range rs[:len(rs)-1] {
+					ls := Layout(r.T)
+					if len(ls) != len(r.L) {
+						continue
+					}
+					switch r.T.Underlying().(type) {
+					case *types.Pointer, *types.Interface, *types.Map, *types.Signature, *types.Chan:
+						for i, l := range ls {
+							if l.Kind == kRef || l.Kind == kIfTag {
+								e.assume(reach, Implies(ok, Not(Eq(r.L[i], IntLit(0)))))
+							}
+						}
+					}
+				}
+			}
+		}
 		e.setLabel(label, &callLabel{Callee: id, Reach: reach, Args: args, Results: splitResults(res), After: st.clone()})
 		return res, reach
 	}
